@@ -47,7 +47,20 @@ def main():
     mod = importlib.import_module("harness." + prop)
     if replay:
         data = json.load(open(replay))
-        ok, msg = mod.replay(data)
+        try:
+            ok, msg = mod.replay(data)
+        except Exception as e:
+            import traceback
+            tb = traceback.extract_tb(e.__traceback__)
+            inner = tb[-1].filename if tb else ""
+            repo = os.path.realpath(os.environ.get("VERIF_REPO", "/repo"))
+            in_repo = any(os.path.realpath(f.filename).startswith(repo + os.sep) for f in tb)
+            last_verif = os.path.realpath(inner).startswith(os.path.realpath(VERIF) + os.sep)
+            if in_repo and not last_verif:
+                ok, msg = True, "the real code raises %s: %s (at %s:%s)" % (type(e).__name__, e, inner, tb[-1].lineno)
+            else:
+                print("REPLAY ERROR (in the harness, not counted): %s: %s" % (type(e).__name__, e))
+                sys.exit(2)
         print(("REPRODUCED: " if ok else "NOT REPRODUCED: ") + msg)
         sys.exit(1 if ok else 0)
     sys.exit(mod.main(tier))
